@@ -122,6 +122,30 @@ static void measure_doc(const Bytes &doc, int depth, Meas &m) {
     binson_parser_reset(&p);
     binson_parser_go_into_object(&p);
     rec(m, "binson_parser_leave_object(early)", painted_call([&] { binson_parser_leave_object(&p); }));
+    // the remaining lookup / ensure variants and an array-rooted parser
+    binson_parser_reset(&p);
+    binson_parser_go_into_object(&p);
+    rec(m, "binson_parser_next_ensure", painted_call([&] { binson_parser_next_ensure(&p, BINSON_TYPE_OBJECT); }));
+    p.error_flags = BINSON_ERROR_NONE;
+    binson_parser_reset(&p);
+    binson_parser_go_into_object(&p);
+    rec(m, "binson_parser_field_with_length(skip-all)", painted_call([&] { binson_parser_field_with_length(&p, "zz", 2); }));
+    binson_parser_reset(&p);
+    binson_parser_go_into_object(&p);
+    rec(m, "binson_parser_field_ensure_with_length(miss)", painted_call([&] { binson_parser_field_ensure_with_length(&p, "zz", 2, BINSON_TYPE_INTEGER); }));
+    {
+        // the same nesting as an array-rooted document: [ <object document> ]
+        Bytes ad; ad.push_back(0x42); ad.insert(ad.end(), doc.begin(), doc.end()); ad.push_back(0x43);
+        std::vector<binson_state> st2((size_t)std::min(255, depth + 1));
+        binson_parser q; memset(&q, 0, sizeof q); q.state = st2.data(); q.max_depth = (uint_fast8_t)st2.size();
+        rec(m, "binson_parser_init_array", painted_call([&] { binson_parser_init_array(&q, ad.data(), ad.size()); }));
+        if (depth + 1 <= 255) {
+            rec(m, "binson_parser_verify(array root)", painted_call([&] { binson_parser_verify(&q); }));
+            binson_parser_go_into_array(&q);
+            binson_parser_next(&q);
+            rec(m, "binson_parser_leave_array(early, array root)", painted_call([&] { binson_parser_leave_array(&q); }));
+        }
+    }
     // rendering
     std::vector<char> text(doc.size() * 4 + 4096);
     size_t tsz = text.size();
